@@ -20,11 +20,27 @@ import (
 // known the generator never spends such an output, so that the search continues behind it.
 const FpSpentAndTrimmed = "C06/commitment/spent-and-trimmed-same-block"
 
+// CheckHeadCommitment reports the finding as "spent-and-trimmed-same-block"; whichever
+// property's check composes a fingerprint from that, it is the same finding.
+func init() { stats.Alias("spent-and-trimmed-same-block", FpSpentAndTrimmed) }
+
 // AtTrimEdge reports whether spending u in the next block coincides with its trimming.
 func (a *Actor) AtTrimEdge(u UTXORec) bool {
 	h, ok := a.created[types.OutPoint{TxHash: u.TxHash, Index: u.Index}]
 	return ok && u.Entry.Denomination <= types.MaxTrimDenomination && u.Entry.Lock.Sign() == 0 &&
 		h+types.TrimDepths[u.Entry.Denomination] == a.ZoneNumber()+1
+}
+
+// NearTrimEdge reports whether u is due for trimming in one of the next four blocks: a
+// transaction submitted now is not always included in the very next block (a custom-mined
+// block takes nothing from the pool), so the exclusion of the known finding keeps a margin.
+func (a *Actor) NearTrimEdge(u UTXORec) bool {
+	h, ok := a.created[types.OutPoint{TxHash: u.TxHash, Index: u.Index}]
+	if !ok || u.Entry.Denomination > types.MaxTrimDenomination || u.Entry.Lock.Sign() != 0 {
+		return false
+	}
+	due, next := h+types.TrimDepths[u.Entry.Denomination], a.ZoneNumber()+1
+	return due >= next && due <= next+3
 }
 
 // TrimDue returns how many blocks from now the next trimming happens (0 = the very next block
@@ -285,7 +301,7 @@ func (a *Actor) spendable() (out []UTXORec, owner []*Key) {
 		if u.Entry.Lock != nil && u.Entry.Lock.Uint64() > next {
 			continue
 		}
-		if a.AtTrimEdge(u) && stats.IsKnown(FpSpentAndTrimmed) {
+		if a.NearTrimEdge(u) && stats.IsKnown(FpSpentAndTrimmed) {
 			stats.Excluded(FpSpentAndTrimmed)
 			continue
 		}
